@@ -9,6 +9,7 @@ import re
 
 from ..astutil import call_attr, calls_in, guard_facts, unparse, walk_local
 from ..cfg import CFG
+from ..dataflow import resolved_text
 from ..report import Finding, Report
 from ..setbuild import describe as describe_set
 from ..srcindex import AnalysisError, ClassInfo, Index, raw_funcs
@@ -404,12 +405,55 @@ def check_binding_order(idx: Index, rep: Report) -> None:
             r.fail(f.fq, Finding("C09.R5", f.fq, "bind-before-verify", "a path binds the variable before the inner constraint accepted the value", f.loc))
 
 
+def check_param_arity(idx: Index, rep: Report) -> None:
+    """ParamAttrConstraint.verify pairs the parameter constraints with the parameters of the attribute; the pairing is
+    only exhaustive on both sides when the two lengths were compared for equality first (or zip is strict)."""
+    from ..astutil import norm_facts, text_facts
+
+    r = rep.rule("C09.R7", "ParamAttrConstraint.verify rejects an attribute whose number of parameters differs from the number of parameter constraints (in either direction) before verifying them pairwise", floor=1)
+    f = idx.func(CONS, "ParamAttrConstraint.verify")
+    cfg = CFG(f.node)
+    loops = []  # (loop, A text, B text, strict)
+    for w in walk_local(f.node):
+        if not (isinstance(w, ast.For) and any(call_attr(c) == "verify" for c in calls_in(w))):
+            continue
+        at = cfg.node_of(w)
+        it = w.iter
+        if isinstance(it, ast.Call) and unparse(it.func) == "zip" and len(it.args) == 2:
+            strict_ = any(k.arg == "strict" and isinstance(k.value, ast.Constant) and k.value.value is True for k in it.keywords)
+            loops.append((w, resolved_text(cfg, it.args[0], at), resolved_text(cfg, it.args[1], at), strict_))
+        elif isinstance(it, ast.Call) and unparse(it.func) == "enumerate" and len(it.args) == 1 and isinstance(w.target, ast.Tuple) and isinstance(w.target.elts[0], ast.Name):
+            i_ = w.target.elts[0].id
+            others = {unparse(n.value) for n in ast.walk(w) if isinstance(n, ast.Subscript) and isinstance(n.slice, ast.Name) and n.slice.id == i_}
+            if len(others) == 1:
+                o = ast.parse(next(iter(others)), mode="eval").body
+                loops.append((w, resolved_text(cfg, it.args[0], at), resolved_text(cfg, o, at), False))
+        elif isinstance(it, ast.Call) and unparse(it.func) == "range" and len(it.args) == 1 and isinstance(w.target, ast.Name):
+            i_ = w.target.id
+            others = sorted({unparse(n.value) for n in ast.walk(w) if isinstance(n, ast.Subscript) and isinstance(n.slice, ast.Name) and n.slice.id == i_})
+            if len(others) == 2:
+                loops.append((w, *(resolved_text(cfg, ast.parse(o, mode="eval").body, at) for o in others), False))
+    if len(loops) != 1:
+        raise AnalysisError(f"{f.fq}: pairwise verification loop not found")
+    w, a, b, strict = loops[0]
+    nf = norm_facts(text_facts(f.node, w))
+    eq = {(f"len({a}) == len({b})", True), (f"len({b}) == len({a})", True)}
+    onesided = [t_ for t_, p_ in nf if re.fullmatch(rf"len\(({re.escape(a)}|{re.escape(b)})\) (<|>|<=|>=) len\(({re.escape(a)}|{re.escape(b)})\)", t_)]
+    if strict or (nf & eq):
+        r.ok(f.fq, f"{f.loc} lengths of `{a}` and `{b}` are equal when the pairwise loop runs")
+    elif onesided:
+        r.fail(f.fq, Finding("C09.R7", f.fq, "arity-one-sided", f"the pairwise loop over `{a}` / `{b}` runs after the one-sided test `{onesided[0]}` only: when the other sequence is the longer one its surplus entries are silently ignored by zip, so a constraint with more parameter constraints than the attribute has parameters accepts it", f.loc))
+    else:
+        r.fail(f.fq, Finding("C09.R7", f.fq, "arity-unchecked", f"the pairwise loop over `{a}` / `{b}` runs without a preceding rejecting `len(..) != len(..)` test: zip stops at the shorter sequence", f.loc))
+
+
 def check(idx: Index, rep: Report, tier: str) -> str:
     rep.run(check_get_bases, idx, rep)
     rep.run(check_relax, idx, rep)
     rep.run(check_forwarding, idx, rep)
     rep.run(check_binding_order, idx, rep)
     rep.run(check_var_binding, idx, rep, "C09.R6")
+    rep.run(check_param_arity, idx, rep)
     return (
         "Guarded-action and table rules over xdsl/irdl/constraints.py and the constraint classes of builtin.py / "
         "bufferization.py: soundness of AnyOf's exact-class dispatch (every get_bases override), inclusion-guarded absorption "
